@@ -50,6 +50,17 @@ GROUPS = {
                    'quill/src/tree/mod.rs::names::Names::first_name', 'quill/src/tree/mod.rs::names::Namespace::new'],
         trusted=['Names<N,T> instantiated at T = u8 and N in {2,3,4}: loops are array::map / while i < N over the const generic N, unwinding assertions on (complete for these N; other N not covered)'],
         harnesses=_names_harnesses()),
+    'diff': dict(
+        crate='quill', file='quill/src/action/diff_mappings.rs', modpath='action::diff_mappings::verif_kani_diff', harness_file='diff.rs',
+        functions=['quill/src/action/diff_mappings.rs::gen_diff_javadoc', 'quill/src/action/diff_mappings.rs::gen_diff_names',
+                   'quill/src/action/apply_diff.rs::apply_diff_option (composition)', 'quill/src/tree/mod.rs::names::Names::change_name (composition)'],
+        trusted=['diff harnesses: Javadoc = Name = u8 with harness-local node types (the functions are generic and only clone / compare); loop-free, all values (complete)'],
+        harnesses=[
+            dict(name='gen_diff_javadoc_table', props=['C04'], complete=True, text='gen_diff_javadoc: only in A -> Remove(old) / None; only in B -> Add(new) / None; both -> from_tuple(old, new) (all Option<u8> pairs)'),
+            dict(name='apply_of_gen_diff_javadoc_is_b', props=['C04'], complete=True, text='apply_diff_option(gen_diff_javadoc(AB(a,b)), a) == Ok(b); an appearing entry gets its comment, a disappearing one loses it (all Option<u8> pairs)'),
+            dict(name='gen_diff_names_table_and_apply', props=['C04'], complete=True, text='gen_diff_names: Remove / Add / Edit of the second-namespace name, Err when a name is absent; change_name driven by the Edit turns A\'s row into B\'s row'),
+            dict(name='canary_diff_must_fail', props=[], canary=True, text='must fail'),
+        ]),
     'merge': dict(
         crate='quill', file='quill/src/action/merge.rs', modpath='action::merge::verif_kani_merge', harness_file='merge.rs',
         functions=['quill/src/action/merge.rs::merge_names', 'quill/src/action/merge.rs::merge_equal', 'quill/src/action/merge.rs::merge_javadoc',
